@@ -80,3 +80,43 @@ Theorem C10_pinned_refuted :
   let s := drun false [Arrive 1; Arrive 2; CreateDone 0; CreateDone 0] in
   P10 (next_obj s) (setups s) (handled s) (got s) = false.
 Proof. vm_compute. reflexivity. Qed.
+
+(* every caller of get() issued so far has been answered or is still waiting; nobody waits once the entry is published *)
+Definition served (s : dst) (g : nat) : Prop := In g (map fst (got s)) \/ In g (get_waiting s).
+
+Lemma served_step s e g : served s g -> served (dstep true s e) g.
+Proof.
+  unfold served. intros H. destruct e as [tag|i|g']; cbn [dstep].
+  - destruct (published s); destruct (creating s); cbn [andb negb got get_waiting]; exact H.
+  - destruct (nth_error (creating s) i); [|exact H].
+    cbn [got get_waiting]. left. rewrite map_app, map_map. cbn [fst]. rewrite map_id. apply in_or_app. exact H.
+  - destruct (published s); cbn [got get_waiting].
+    + destruct H as [H|H]; [left; rewrite map_app; apply in_or_app; now left|now right].
+    + destruct H as [H|H]; [now left|right; apply in_or_app; now left].
+Qed.
+
+Lemma served_new s g : served (dstep true s (UserGet g)) g.
+Proof.
+  unfold served. cbn [dstep]. destruct (published s); cbn [got get_waiting].
+  - left. rewrite map_app. apply in_or_app. right. now left.
+  - right. apply in_or_app. right. now left.
+Qed.
+
+Lemma served_run evs : forall s g, (served s g \/ In g (getters evs)) -> served (fold_left (dstep true) evs s) g.
+Proof.
+  induction evs as [|e evs IH]; intros s g H; cbn [fold_left].
+  - destruct H as [H|H]; [exact H|destruct H].
+  - apply IH. unfold getters in H. cbn [flat_map] in H. fold (getters evs) in H.
+    destruct H as [H|H]; [left; now apply served_step|].
+    apply in_app_or in H. destruct H as [H|H]; [|now right].
+    destruct e as [tag|i|g']; cbn in H; [contradiction|contradiction|].
+    destruct H as [<-|[]]. left. apply served_new.
+Qed.
+
+Theorem C10_getters : C10_getters_statement.
+Proof.
+  intros evs. cbn zeta. intros Hp g Hg.
+  pose proof (served_run evs dinit g (or_intror Hg)) as H. fold (drun true evs) in H.
+  destruct (inv_run evs) as [ (Hp' & _) | (_ & _ & _ & _ & _ & Hgw & _ & _) ]; [congruence|].
+  destruct H as [H|H]; [exact H|]. rewrite Hgw in H. destruct H.
+Qed.
